@@ -8,7 +8,9 @@ job = {mode "trim"|"crop", H, W,
        list   integer codes of trim's `values` / crop's `zones_ids`; null = call trim with its default
        list_kind "list" | "tuple";  list_float: force python floats in the list
        table  optional: rank mode - real value of code c is table[c] (exact python ints, e.g. 2**53 + 1)
-       ys, xs integer coordinates, dims [ydim, xdim], layout "C" | "F" | "view", tag}
+       neg_zero_cells / neg_zero_listed / nan_kind  (float64) zeros stored as -0.0, a listed 0.0 passed as -0.0,
+              NaN cells stored with a sign bit / payload ("neg" | "payload" | "mixed")
+       ys, xs integer index labels (may repeat; positions are identified by the non-index coordinates rowid / colid), dims [ydim, xdim], layout "C" | "F" | "view", tag}
 The values raster of crop carries a distinct id per cell (float64), so a window is identified by its cells.
 """
 import json
@@ -91,18 +93,57 @@ def pyval(code, scale, as_float):
     return int(v)
 
 
-def other_coords_ok(out, dims, ys):
-    """the scalar coordinate and the non-index coordinate of the sliced raster are still attached, the latter
-    sliced consistently with the y coordinate; nothing else is attached"""
+ROWID0, COLID0 = 1000, 2000
+
+
+def positions(out):
+    """the window as positions: the non-index coordinates rowid / colid of the sliced raster carry a distinct id per
+    row / column (index labels may repeat, so they cannot identify a position)"""
+    def ids(name):
+        if name not in out.coords:
+            return []
+        return [int(v) if float(v) == int(v) else BAD for v in np.asarray(out.coords[name].values).ravel()]
+    return ids("rowid"), ids("colid")
+
+
+def other_coords_ok(out, dims, ys, xs):
+    """index coordinates, scalar coordinate and the other non-index coordinate of the result are those of the sliced
+    raster AT THE SAME POSITIONS (positions taken from rowid / colid); nothing else is attached"""
     try:
-        if set(out.coords) != {dims[0], dims[1], "band", "rowlabel"}:
+        if set(out.coords) != {dims[0], dims[1], "band", "rowlabel", "rowid", "colid"}:
             return False
         if int(out.coords["band"].values) != 3:
             return False
+        rid, cid = positions(out)
+        ypos = [(r - ROWID0) // 10 for r in rid]
+        xpos = [(c - COLID0) // 10 for c in cid]
+        if any(p < 0 or p >= len(ys) for p in ypos) or any(p < 0 or p >= len(xs) for p in xpos):
+            return False
         yv = np.asarray(out.coords[dims[0]].values, dtype=np.float64)
-        return bool(np.array_equal(np.asarray(out.coords["rowlabel"].values, dtype=np.float64), yv * 2 + 1))
+        xv = np.asarray(out.coords[dims[1]].values, dtype=np.float64)
+        return bool(np.array_equal(yv, np.array([ys[p] for p in ypos], dtype=np.float64))
+                    and np.array_equal(xv, np.array([xs[p] for p in xpos], dtype=np.float64))
+                    and np.array_equal(np.asarray(out.coords["rowlabel"].values, dtype=np.float64), yv * 2 + 1))
     except Exception:
         return False
+
+
+def odd_floats(data, codes, j):
+    """float64 rasters: store zeros as -0.0 and / or NaNs with a sign bit or payload (same VALUES, other bits)"""
+    if data.dtype != np.float64:
+        return data
+    c = np.array(codes)
+    if j.get("neg_zero_cells"):
+        data[(c == 0)] = -0.0
+    kind = j.get("nan_kind")
+    if kind:
+        pats = {"neg": [0xFFF8000000000000], "payload": [0x7FF8000000000001, 0x7FF0000000000001],
+                "mixed": [0xFFF8000000000000, 0x7FF8000000000abc, 0x7FF8000000000000, 0xFFFFFFFFFFFFFFFF]}[kind]
+        idx = np.argwhere(c == NAN)
+        bits = data.view(np.uint64)
+        for n, (y, x) in enumerate(idx):
+            bits[y, x] = pats[n % len(pats)]
+    return data
 
 
 def run_job(j):
@@ -111,12 +152,13 @@ def run_job(j):
     dims = j.get("dims") or ["y", "x"]
     layout = j.get("layout", "C")
     table = j.get("table")
-    data = lay(decode(j["data"], j["dtype"], scale, table), layout)
+    data = lay(odd_floats(decode(j["data"], j["dtype"], scale, table), j["data"], j), layout)
     attrs = {"res": (1.0, 2.0), "nodata": -1, "note": "c18"}
     # the raster that is sliced carries, besides its two index coordinates, a scalar coordinate and a
     # non-index coordinate along y: all of them belong to "the coordinates of the original"
     coords = {dims[0]: np.array(j["ys"], dtype=np.float64), dims[1]: np.array(j["xs"], dtype=np.float64),
-              "band": 3, "rowlabel": (dims[0], np.array(j["ys"], dtype=np.float64) * 2 + 1)}
+              "band": 3, "rowlabel": (dims[0], np.array(j["ys"], dtype=np.float64) * 2 + 1),
+              "rowid": (dims[0], ROWID0 + 10 * np.arange(H)), "colid": (dims[1], COLID0 + 10 * np.arange(W))}
     if mode == "trim":
         raster = xr.DataArray(data, dims=dims, coords=coords, attrs=dict(attrs), name="input")
     else:
@@ -130,13 +172,18 @@ def run_job(j):
             zc = {dims[0]: 1000.0 + 7.0 * np.arange(H), dims[1]: -500.0 - 3.0 * np.arange(W)}
             raster = xr.DataArray(data, dims=dims, coords=zc, attrs=zattrs, name="zones")
     lst = j.get("list")
-    case = {"mode": mode, "H": H, "W": W, "data": j["data"], "ys": j["ys"], "xs": j["xs"],
+    # the judge identifies positions by rowid / colid (given to it as ys / xs); the index labels j["ys"], j["xs"] may
+    # repeat and are checked against the positions in other_coords_ok
+    case = {"mode": mode, "H": H, "W": W, "data": j["data"], "ys": [ROWID0 + 10 * i for i in range(H)],
+            "xs": [COLID0 + 10 * i for i in range(W)],
             "list": lst if lst is not None else [NAN], "tag": j.get("tag", ""), "job": j}
     if lst is None:
         args = None
     else:
         args = [table[c] for c in lst] if table is not None else \
             [pyval(c, scale, j.get("list_float", False)) for c in lst]
+        if j.get("neg_zero_listed"):
+            args = [-0.0 if (isinstance(a, float) and a == 0.0) else a for a in args]
         if j.get("list_kind") == "tuple":
             args = tuple(args)
     try:
@@ -163,10 +210,9 @@ def run_job(j):
         case["out"] = {
             "h": int(o.shape[0]), "w": int(o.shape[1]),
             "cells": encode(o, cscale, table if mode == "trim" else None) if o.size else [],
-            "ys": [int(v) if float(v) == int(v) else BAD for v in out.coords[dims[0]].values] if dims[0] in out.coords else [],
-            "xs": [int(v) if float(v) == int(v) else BAD for v in out.coords[dims[1]].values] if dims[1] in out.coords else [],
+            "ys": positions(out)[0], "xs": positions(out)[1],
             "attrs_ok": bool(dict(out.attrs) == attrs),
-            "other_coords_ok": other_coords_ok(out, dims, j["ys"]),
+            "other_coords_ok": other_coords_ok(out, dims, j["ys"], j["xs"]),
             "dims_ok": bool(list(out.dims) == list(dims)),
         }
     except Exception as ex:  # the call itself failed
